@@ -182,6 +182,24 @@ def engine_check(ctx: Ctx, profile, n_quick, n_thorough, nontrivial, monitor=Non
             if len(ctx.violations) >= 3:
                 done = True
                 break
+    # which lines of the anchored engine / dispatch code did a sample of these inputs execute?
+    try:
+        import cover
+        files = ["engines/sync.py", "engines/async_.py", "engines/base.py", "callbacks.py", "event.py",
+                 "event_data.py", "statemachine.py", "dispatcher.py", "signature.py", "transition.py", "events.py"]
+        with cover.Tracer(files) as tr:
+            for k in range(60):
+                rng = random.Random(f"{ctx.seed}:{tag}:{k}")
+                s = gen.gen_scenario(rng, profile, f"{tag}-cov-{k}")
+                if mutate:
+                    mutate(rng, s)
+                try:
+                    eng.run_impl(s)
+                except Exception:
+                    pass
+        ctx.coverage.setdefault("anchored_line_coverage_sample60", {})[tag] = tr.report()
+    except Exception as e:      # coverage is informational
+        ctx.coverage.setdefault("anchored_line_coverage_sample60", {})[tag] = f"unavailable: {type(e).__name__}: {e}"
     ctx.coverage.update(
         evaluations=stats["evaluations"], distinct_nontrivial=len(nontriv),
         traces_validated_against_impl=stats["evaluations"] - stats["disagreements"],
